@@ -31,6 +31,44 @@ PROPS = {
         "modelled": EXTERNAL,
         "assumptions": ["NoopNormalizer (identity) is the normalizer"],
     },
+    "C13": {
+        "suites": [("cmp", 900, 12000)],
+        "proved_scope": (
+            "for ALL trees, filters and text comparisons: advanced_deep_equal = structural equality of the filtered forests "
+            "(C13_advanced; Rust zip semantics included). For structurally valid trees (children ordered namespace/attribute/normal, "
+            "unique attribute names per node, attribute/namespace nodes are leaves) and normal compared nodes: "
+            "deep_equal a b <-> canon a = canon b (C13_iff), hence reflexive / symmetric / transitive; insensitive to namespace "
+            "nodes anywhere (declarations, prefixes: C13_ignores_declarations, C13_ignores_prefix) and to the attribute order of the "
+            "compared node (C13_ignores_attribute_order; deeper levels via canon, which sorts attributes); with any text comparison "
+            "the canonical forms are related up to cmp (C13_advanced_all); deep_equal_xpath on element/element and document/document = "
+            "Canon.rel cmp of the canonical forms with everything but elements and text discarded, otherwise CValue.rel cmp of the two "
+            "nodes (C13_xpath, C13_xpath_other); deep_equal_children <-> equal canonical child sequences (C13_children); "
+            "shallow_equal <-> equal canonical values, for every node kind (C13_shallow); shallow_equal_ignore_attributes <-> equal "
+            "canonical values with the listed names removed, for ignore lists WITHOUT repeated names (C13_shallow_ignore_partial); "
+            "string_value of document/element = concatenated text of the canonical form, other nodes their own content "
+            "(C13_string_value, C13_string_value_other). Proved negations with closed witnesses: C13_iff_Statement_false "
+            "(attribute / namespace nodes always deep_equal: C13_abnormal_always_equal, C13_abnormal_vs_normal), "
+            "C13_shallow_ignore_Statement_false (repeated name in the ignore list, wrong false and wrong true)."
+        ),
+        "not_proved": (
+            "no statement about structurally invalid trees beyond C13_advanced (ill-ordered children, duplicate attribute names, "
+            "children under attribute/namespace nodes); attribute-order insensitivity below the compared node is only available "
+            "through C13_iff + the definition of canon, not as a separate theorem; deep_equal_xpath(==) a b = deep_equal of the "
+            "trees with comments/PIs removed is not derived (needs validity of the stripped tree), C13_xpath states the relation on "
+            "canonical forms instead; Canon.rel compares attribute maps by size + lookup (finite-map relation), its equivalence with a "
+            "position-wise comparison of the sorted lists is not proved; equivalence-relation laws for custom text comparisons are "
+            "not claimed (they depend on cmp); text_content / text_content_str are modelled and in the correspondence suite but have "
+            "no theorem; the dev-profile behaviour of the usize subtraction (panic on overflow) is not modelled (release: wrapping); "
+            "name id <-> expanded name is C08"
+        ),
+        "modelled": EXTERNAL,
+        "assumptions": [
+            "a name id stands for its expanded name (local name, namespace URI): interning is one-to-one (C08)",
+            "harness built with overflow-checks = false: usize arithmetic wraps modulo 2^64",
+            "text comparisons and filters are pure total functions of their arguments (filter of the node's own subtree)",
+            "attribute lists have fewer than 2^64 entries (hypothesis of C13_shallow*)",
+        ],
+    },
     "C04": {
         "suites": [("forest", 300, 6000)],
         "proved_scope": "invariant Forest.inv defined (decidable); proved: holds initially, preserved by set_text_consolidation; value updates never create, lose or reorder a handle. The invariant is additionally evaluated on the model state after every step of every correspondence history and compared with an independent validator on the real forest",
